@@ -12,7 +12,7 @@ package client
 //@ spec func rr_slot(next uint32, n int) int = int(next) % n
 
 //@ func (*RoundRobin).Next(x)
-//@   arith bv
+//@   arith int
 //@   requires len(x.nodes) > 0
 //@   requires len(x.nodes) <= 1<<32
 //@   ensures picks-configured-node: exists i int :: 0 <= i && i < len(x.nodes) && result == x.nodes[i]
@@ -22,6 +22,6 @@ package client
 //@   modifies RoundRobin.next
 
 //@ func (*RoundRobin).Set(x, nodes)
-//@   arith bv
+//@   arith int
 //@   ensures len(x.nodes) == len(nodes) && forall i int :: 0 <= i && i < len(nodes) ==> x.nodes[i] == nodes[i]
 //@   modifies RoundRobin.nodes
